@@ -365,7 +365,7 @@ def sigapi_cases(draw):
     # lengths at which a message could be mistaken for something else (a 32-byte digest, a 64-byte pair, an empty string),
     # for the message as passed: body + 4 flag bytes in preimage mode
     blen = draw(st.sampled_from([None, None, None, 0, 1, 27, 28, 29, 31, 32, 33, 60, 64]))
-    body = draw(st.binary(max_size=200)) if blen is None else draw(st.binary(min_size=blen, max_size=blen))
+    body = draw(gen.sized_binary(200)) if blen is None else draw(st.binary(min_size=blen, max_size=blen))
     case = {
         "msg": body.hex(),
         "flag": flag,
